@@ -3,6 +3,7 @@ package main
 import (
 	"fmt"
 	"go/ast"
+	"go/token"
 	"go/types"
 	"strings"
 )
@@ -216,6 +217,24 @@ func (p *Proc) onClosureCreated(ec *ectx, cv *ClosureVal) {
 	cct := p.ctx.contracts[ckey]
 	if cct == nil {
 		return
+	}
+	// `stable v`: the captured variable v is the closure's own from creation on - nothing in the
+	// creating function assigns it afterwards, nor anywhere in a loop around the closure (a later
+	// iteration would change what an earlier closure, run later, sees)
+	for _, cl := range cct.ByKind("stable") {
+		for _, name := range splitNames(cl.Text) {
+			ok := false
+			for _, fv := range freeVars(p.fi.Pkg.TypesInfo, cv.Lit) {
+				if fv.Name() == name {
+					ok = !p.assignedAround(fv, cv.Lit)
+				}
+			}
+			g := TFalse
+			if ok {
+				g = TTrue
+			}
+			p.oblige(ec.st, "closure.pre", fmt.Sprintf("%sclosure#%d.stable[%s]", p.cur().prefix, cv.Ordinal, name), cl.Tags, g, cl.Where)
+		}
 	}
 	for i, cl := range cct.ByKind("requires") {
 		cec := p.specEc(ec.st, cv.Lit.Body.Lbrace)
@@ -510,4 +529,77 @@ func (p *Proc) syncClosureEffects(ec *ectx, ct *Contract, sig *types.Signature, 
 			}
 		}
 	}
+}
+
+// assignedAround reports whether the enclosing function assigns v after the function literal, or
+// anywhere inside a loop that encloses the literal (outside the literal itself).
+func (p *Proc) assignedAround(v *types.Var, lit *ast.FuncLit) bool {
+	info := p.fi.Pkg.TypesInfo
+	root := p.fi.root()
+	body := root.Body()
+	if body == nil {
+		return true
+	}
+	// loops enclosing the literal
+	var loops []ast.Node
+	ast.Inspect(body, func(n ast.Node) bool {
+		if n == nil {
+			return false
+		}
+		switch n.(type) {
+		case *ast.ForStmt, *ast.RangeStmt:
+			if n.Pos() <= lit.Pos() && lit.End() <= n.End() {
+				loops = append(loops, n)
+			}
+		}
+		return true
+	})
+	inScope := func(pos token.Pos) bool {
+		if pos >= lit.Pos() && pos < lit.End() {
+			return false
+		}
+		if pos >= lit.End() {
+			return true
+		}
+		for _, l := range loops {
+			if pos >= l.Pos() && pos < l.End() {
+				return true
+			}
+		}
+		return false
+	}
+	found := false
+	isV := func(e ast.Expr) bool {
+		id, ok := ast.Unparen(e).(*ast.Ident)
+		if !ok {
+			return false
+		}
+		if o, ok := info.Uses[id].(*types.Var); ok && o == v {
+			return true
+		}
+		return false
+	}
+	ast.Inspect(body, func(n ast.Node) bool {
+		switch x := n.(type) {
+		case *ast.AssignStmt:
+			if x.Tok == token.DEFINE {
+				return true
+			}
+			for _, l := range x.Lhs {
+				if isV(l) && inScope(x.Pos()) {
+					found = true
+				}
+			}
+		case *ast.IncDecStmt:
+			if isV(x.X) && inScope(x.Pos()) {
+				found = true
+			}
+		case *ast.RangeStmt:
+			if x.Tok == token.ASSIGN && ((x.Key != nil && isV(x.Key)) || (x.Value != nil && isV(x.Value))) && inScope(x.Pos()) {
+				found = true
+			}
+		}
+		return true
+	})
+	return found
 }
